@@ -19,7 +19,7 @@ RULE = ('case = (implementation, input length, threads, chunk size, sort flag, i
         'over controller choices. distinct = distinct realised (impl, n, threads, chunk, sort, raise-set, '
         'finish sequence) tuples measured from f itself; non-trivial = threads>1 and n>=2 (a real pool ran) '
         'or a chunked() case with a non-multiple length')
-REQUIRED = ['parallel_runs', 'input_kind_np', 'input_kind_series', 'input_kind_gen', 'exceptions_propagated_two', 'exceptions_propagated_fnf', 'exceptions_propagated_stop', 'exceptions_propagated_base', 'exceptions_propagated_single_thread', 'runs_with_exc_outputs', 'runs_with_none_outputs', 'runs_with_dict_outputs', 'orders_out_of_input_order', 'exceptions_propagated', 'chunked_checked',
+REQUIRED = ['parallel_runs', 'inputs_with_a_none_element', 'input_kind_np', 'input_kind_series', 'input_kind_gen', 'exceptions_propagated_two', 'exceptions_propagated_fnf', 'exceptions_propagated_stop', 'exceptions_propagated_base', 'exceptions_propagated_single_thread', 'runs_with_exc_outputs', 'runs_with_none_outputs', 'runs_with_dict_outputs', 'orders_out_of_input_order', 'exceptions_propagated', 'chunked_checked',
             'unsorted_runs', 'exhaustive_configs']
 ASSUMPTIONS = ['parallel_map is called from the main thread of a process (it needs the thread\'s asyncio event loop)',
                'completion order is dictated by releasing blocked calls of f one at a time; the realised order is '
@@ -27,6 +27,7 @@ ASSUMPTIONS = ['parallel_map is called from the main thread of a process (it nee
 BUDGET = {'quick': 45, 'thorough': 600}
 WATCHDOG = 20.0
 HANG_LIMIT = 45
+NONE_ID = 99
 
 
 class HangTimeout(BaseException):
@@ -54,7 +55,8 @@ class TwoArgError(Exception):
         self.item, self.status = item, status
 
 
-RAISE_TYPES = {'boom': BoomError, 'stop': StopIteration, 'base': AbortBase, 'key': KeyError, 'two': TwoArgError, 'fnf': FileNotFoundError, 'uni': UnicodeDecodeError}
+RAISE_TYPES = {'boom': BoomError, 'stop': StopIteration, 'base': AbortBase, 'key': KeyError, 'two': TwoArgError, 'fnf': FileNotFoundError, 'uni': UnicodeDecodeError,
+               'rte': RuntimeError, 'nie': NotImplementedError, 'rec': RecursionError, 'val': ValueError, 'os': OSError, 'asrt': AssertionError}
 RAISE_MAKERS = {'two': lambda x: TwoArgError(x, 503), 'fnf': lambda x: FileNotFoundError(2, 'No such file or directory', f'/data/{x}'),
                 'uni': lambda x: UnicodeDecodeError('utf-8', b'\xff' + str(x).encode(), 0, 1, 'invalid start byte')}
 
@@ -123,11 +125,20 @@ class Controller:
     def f(self, x):
         if hasattr(x, 'item'):
             x = x.item()          # elements of numpy / pandas inputs
+        if x is None:
+            x = NONE_ID           # the element None (at most one per input), an element like any other
         ev = threading.Event()
         with self.cond:
             self.calls[x] = self.calls.get(x, 0) + 1
-            self.inflight[x] = ev
-            self.cond.notify_all()
+            repeated = self.calls[x] > 1
+            if not repeated:
+                self.inflight[x] = ev
+                self.cond.notify_all()
+        if repeated:
+            # a second call for the same element is already a violation (judged from `calls`); the controller has no slot for it: do not block
+            if x in self.raise_set:
+                raise self.raise_maker(x)
+            return self.out(x)
         if not ev.wait(WATCHDOG):
             self.timeout = True
         with self.cond:
@@ -211,9 +222,19 @@ def run_once(cfg, prefix):
     ctl = Controller(xs, threads, chunks, chooser, raise_set)
     ctl.out = make_out(cfg.get('out', 'tuple'))
     ctl.raise_maker = RAISE_MAKERS.get(cfg.get('raise_type', 'boom')) or RAISE_TYPES[cfg.get('raise_type', 'boom')]
-    inp = xs if cfg.get('input', 'list') == 'list' else (x for x in xs)
+    elems = list(xs)
+    if cfg.get('none_at') is not None and n:
+        k_ = cfg['none_at'] % n
+        xs[k_] = NONE_ID
+        elems = [None if i == k_ else x for i, x in enumerate(xs)]
+        raise_set = set(xs[i] for i in cfg.get('raise', []))
+        chunks = model_chunks(xs, cfg['impl'], threads, chunksize)
+        ctl = Controller(xs, threads, chunks, chooser, raise_set)
+        ctl.out = make_out(cfg.get('out', 'tuple'))
+        ctl.raise_maker = RAISE_MAKERS.get(cfg.get('raise_type', 'boom')) or RAISE_TYPES[cfg.get('raise_type', 'boom')]
+    inp = elems if cfg.get('input', 'list') == 'list' else (x for x in elems)
     if cfg.get('input') == 'tuple':
-        inp = tuple(xs)
+        inp = tuple(elems)
     elif cfg.get('input') in ('np', 'series', 'index', 'dict', 'range'):
         # iterables with their own idea of truth / equality
         import numpy as np
@@ -274,6 +295,8 @@ def judge(cfg, ob, res: CaseResult):
         res.inconclusive.append(f'controller watchdog fired for {cfg}')
         return
     res.count('input_kind_' + cfg.get('input', 'list'))
+    if cfg.get('none_at') is not None:
+        res.count('inputs_with_a_none_element')
     out = make_out(cfg.get('out', 'tuple'))
     expect = [out(x) for x in xs]
     if cfg.get('out', 'tuple') != 'tuple':
@@ -326,9 +349,16 @@ def check_chunked(cfg, res: CaseResult):
     from taskchain.utils.iter import chunked
     n, c = cfg['n'], cfg['chunk']
     xs = list(range(n))
-    for kind in ('list', 'gen', 'str'):
+    for kind in ('list', 'gen', 'str', 'nones', 'falsy'):
         if kind == 'list':
             inp, ref = xs, xs
+        elif kind == 'nones':
+            # elements that are None (every third one and the last ones): elements like any other
+            ref = [None if (i % 3 == 2 or i >= n - 2) else i for i in xs]
+            inp = list(ref)
+        elif kind == 'falsy':
+            ref = [[None, 0, '', (), False, 0.0, []][i % 7] for i in xs]
+            inp = iter(list(ref))
         elif kind == 'gen':
             inp, ref = (x for x in xs), xs
         else:
@@ -441,7 +471,7 @@ def cases(tier, seed):
             for r in range(n):
                 enum_cfgs.append({'impl': impl, 'n': n, 'threads': threads, 'chunk': n, 'raise': [r]})
                 if n == 3:
-                    for rt in ('stop', 'base', 'key', 'two', 'fnf', 'uni'):
+                    for rt in ('stop', 'base', 'key', 'two', 'fnf', 'uni', 'rte', 'nie', 'rec', 'val', 'os', 'asrt'):
                         enum_cfgs.append({'impl': impl, 'n': n, 'threads': threads, 'chunk': n, 'raise': [r], 'raise_type': rt})
             enum_cfgs.append({'impl': impl, 'n': n, 'threads': threads, 'chunk': 2, 'raise': [0, n - 1]})
     rng.shuffle(enum_cfgs)
@@ -457,6 +487,15 @@ def cases(tier, seed):
                                 'input': rng.choice(['list', 'gen', 'tuple']) if impl != 'starmap' else 'list', 'tqdm': tq, 'raise': [r], 'raise_type': rt})
     for i in range(0, len(seq), 12):
         yield {'kind': 'runs', 'cfgs': seq[i:i + 12]}
+    # 3c. the element None at chunk boundaries and at the very end
+    nn = []
+    for impl in ('threading', 'iter'):
+        for n, chunk, at in ((4, 2, 1), (4, 2, 3), (5, 2, 4), (6, 3, 2), (6, 3, 5), (3, 1000, 2), (7, 3, 0), (1, 1, 0), (2, 2, 1)):
+            for threads in (1, 3):
+                nn.append({'impl': impl, 'n': n, 'threads': threads, 'chunk': chunk, 'sort': True, 'policy': 'reverse', 'pseed': 1, 'input': rng.choice(['list', 'gen', 'tuple']),
+                           'tqdm': False, 'none_at': at})
+    for i in range(0, len(nn), 12):
+        yield {'kind': 'runs', 'cfgs': nn[i:i + 12]}
     # 3b. inputs with their own truth value: one falsy element, several elements, none
     odd = []
     for impl in ('threading', 'iter'):
@@ -485,7 +524,7 @@ def cases(tier, seed):
             cfg['input'] = 'list'
         if n and rng.random() < 0.2:
             cfg['raise'] = sorted(rng.sample(range(n), rng.choice([1, 1, 2]) if n > 1 else 1))
-            cfg['raise_type'] = rng.choice(['boom', 'boom', 'stop', 'base', 'key', 'two', 'fnf', 'uni'])
+            cfg['raise_type'] = rng.choice(['boom', 'boom', 'stop', 'base', 'key', 'two', 'fnf', 'uni', 'rte', 'nie', 'rec', 'val', 'os', 'asrt'])
         batch.append(cfg)
         if len(batch) == 10:
             yield {'kind': 'runs', 'cfgs': batch}
